@@ -121,6 +121,9 @@ func (w *lockWorld) ghostKeyOf(k int) crypto.Key {
 		key[0] = byte(k)
 		key[1] = byte(k >> 8)
 		binary.BigEndian.PutUint32(key[4:], uint32(w.salt))
+		for key.CheckKey() { // about half of all 32-byte strings decode as curve points
+			key[8]++
+		}
 	} else {
 		seed := make([]byte, 64)
 		copy(seed, []byte(fmt.Sprintf("verif-ghost-key-%d-%d", w.salt, k)))
@@ -834,6 +837,9 @@ func execLocks(st *State, line string) Result {
 	if f[0] == "race" {
 		return w.execRace(line)
 	}
+	if f[0] == "vout" {
+		return w.execVout(f)
+	}
 	pre := w.last
 	res, call, ok := w.execLockCall(line)
 	if !ok {
@@ -860,6 +866,90 @@ func execLocks(st *State, line string) Result {
 	}
 	return Result{Out: res + "|" + joinDump(post), LeanIn: leanIn, PropKey: key, PropDesc: desc, Tags: tags,
 		Nontrivial: conflict || res != "ok"}
+}
+
+// ---------------------------------------------------------------- validateOutputs
+
+// execVout: `vout tx fork inputAmount nout {typ amount scriptOk scriptEmpty maskHas maskValid
+// withdrawal nkeys k…}*` builds real outputs with those properties (checked against the real
+// Script.VerifyFormat / Key.CheckKey) and calls the real Transaction.validateOutputs with the
+// BadgerStore as ghost locker.
+func (w *lockWorld) execVout(f []string) Result {
+	a, ok := atoiList(f[1:])
+	if !ok || len(a) < 4 || a[1] > 1 {
+		return Result{Out: "bad-op"}
+	}
+	txid, fork, inAmt, nout := a[0], a[1] == 1, a[2], a[3]
+	p := 4
+	tx := common.NewTransactionV5(common.XINAssetId)
+	var all []int
+	for i := 0; i < nout; i++ {
+		if p+8 > len(a) {
+			return Result{Out: "bad-op"}
+		}
+		typ, amt, so, se, mh, mv, wd, nk := a[p], a[p+1], a[p+2], a[p+3], a[p+4], a[p+5], a[p+6], a[p+7]
+		p += 8
+		if p+nk > len(a) || typ > 255 || so > 1 || se > 1 || mh > 1 || mv > 1 || wd > 1 || (so == 1 && se == 1) || (mh == 0 && mv == 1) {
+			return Result{Out: "bad-op"}
+		}
+		out := &common.Output{Type: uint8(typ), Amount: common.NewInteger(uint64(amt))}
+		switch {
+		case so == 1:
+			out.Script = common.NewThresholdScript(1)
+		case se == 0:
+			out.Script = common.Script{1, 2, 3}
+		}
+		switch {
+		case mh == 1 && mv == 1:
+			out.Mask = w.ghostKeyOf(899)
+		case mh == 1:
+			out.Mask = w.ghostKeyOf(999)
+		}
+		if wd == 1 {
+			out.Withdrawal = &common.WithdrawalData{Address: "0xverif", Tag: ""}
+		}
+		if (out.Script.VerifyFormat() == nil) != (so == 1) || (len(out.Script) == 0) != (se == 1) ||
+			out.Mask.HasValue() != (mh == 1) || (mh == 1 && out.Mask.CheckKey() != (mv == 1)) {
+			panic("harness: vout flags do not describe the constructed output")
+		}
+		for _, k := range a[p : p+nk] {
+			key := w.ghostKeyOf(k)
+			if key.CheckKey() != (k < 900) {
+				panic("harness: key validity convention broken")
+			}
+			out.Keys = append(out.Keys, &key)
+			all = append(all, k)
+		}
+		p += nk
+		tx.Outputs = append(tx.Outputs, out)
+	}
+	if p != len(a) {
+		return Result{Out: "bad-op"}
+	}
+	hash := w.txHash(txid)
+	pre := w.last
+	res, _, _ := Catch(func() string {
+		return errClass(tx.VerifValidateOutputs(w.store, hash, common.NewInteger(uint64(inAmt)), fork))
+	})
+	post, _ := w.dump()
+	w.last = post
+	call := &lockCall{kind: "lockghost", tx: txid, fork: fork, keys: all}
+	key, desc, _, conflict := w.lockProperty(call, res, pre, post, "")
+	seen := map[int]bool{}
+	dup := false
+	for _, k := range all {
+		dup = dup || seen[k]
+		seen[k] = true
+	}
+	if dup && res == "ok" && key == "" {
+		key, desc = "C04:in-tx-duplicate-accepted", "validateOutputs accepted outputs that repeat a key"
+	}
+	cls := "nodup"
+	if dup {
+		cls = "dup"
+	}
+	return Result{Out: res + "|" + joinDump(post), PropKey: key, PropDesc: desc,
+		Tags: []string{"vout/" + cls + "/" + res}, Nontrivial: dup || conflict || res != "ok"}
 }
 
 // ---------------------------------------------------------------- concurrent calls
@@ -1184,6 +1274,52 @@ func genLocks(r *Rand, i int, tier string) []string {
 			return Pick(r, txs).id
 		}
 	}
+	genVout := func() string {
+		nout := r.Range(1, 3)
+		a := []int{anyTx(), b2i(r.Chance(1, 4)), 0, nout}
+		sum := 0
+		for j := 0; j < nout; j++ {
+			typ, amt := 0, r.Range(1, 3)
+			so, se, mh, mv, wd := 1, 0, 1, 1, 0
+			switch r.Intn(24) {
+			case 0:
+				amt = 0
+			case 1:
+				so, se = 0, 0
+			case 2:
+				so, se = 0, 1
+			case 3:
+				mh, mv = 0, 0
+			case 4:
+				mv = 0
+			case 5:
+				wd = 1
+			case 6:
+				typ = Pick(r, []int{0xa1, 0xa9, 0xa3, 0xaa, 0xa4, 0xa6, 0xb1})
+			}
+			if r.Chance(1, 20) {
+				typ, so, se, mh, mv = Pick(r, []int{0xa1, 0xa9, 0xa3, 0xaa, 0xa4}), 0, 1, 0, 0
+			}
+			sum += amt
+			nk := r.Intn(4)
+			if typ >= 0xa1 && typ != 0xa6 && typ != 0xb1 && r.Chance(3, 4) {
+				nk = 0
+			}
+			a = append(a, typ, amt, so, se, mh, mv, wd, nk)
+			for c := 0; c < nk; c++ {
+				k := 1 + r.Intn(keyPool+3)
+				if r.Chance(1, 30) {
+					k = 900 + r.Intn(3)
+				}
+				a = append(a, k)
+			}
+		}
+		a[2] = sum
+		if r.Chance(1, 12) {
+			a[2] = sum + 1
+		}
+		return "vout " + fmtInts(a...)
+	}
 	nOps := r.Range(8, 30)
 	if tier == "thorough" {
 		nOps = r.Range(10, 60)
@@ -1229,8 +1365,10 @@ func genLocks(r *Rand, i int, tier string) []string {
 				a = append(a, 1+r.Intn(keyPool))
 			}
 			lines = append(lines, "lockghost "+fmtInts(a...))
-		case c < 18:
+		case c < 17:
 			lines = append(lines, "writetx "+fmtInts(Pick(r, txs).id))
+		case c < 18:
+			lines = append(lines, genVout())
 		default:
 			n := r.Range(1, 2)
 			a := []int{r.Range(1, 2), n}
@@ -1249,12 +1387,24 @@ func genLocks(r *Rand, i int, tier string) []string {
 }
 
 func init() {
+	voutCorpus := []string{"reset", "exceptions",
+		"vout 6 0 2 2 0 1 1 0 1 1 0 2 1 2 0 1 1 0 1 1 0 2 3 1", // key 1 repeated across outputs
+		"vout 6 0 1 1 0 1 1 0 1 1 0 2 1 1",                     // repeated inside one output
+		"vout 6 0 2 2 0 1 1 0 1 1 0 2 1 2 0 1 1 0 1 1 0 1 3",   // accepted: binds 1 2 3 to 6
+		"vout 7 0 1 1 0 1 1 0 1 1 0 1 2",                       // foreign key
+		"vout 101 1 1 1 0 1 1 0 1 1 0 1 2",                     // exception on the fork path
+		"vout 6 0 1 1 0 1 1 0 1 1 0 1 900",                     // invalid curve point
+		"vout 6 0 2 1 0 1 1 0 1 1 0 1 4",                       // amounts differ
+		"vout 6 0 1 1 161 1 0 1 0 0 0 0",                       // kernel output: no keys, script, mask
+		"vout 6 0 1 1 161 1 0 1 0 0 0 1 5",                     // kernel output with a key
+		"fulldump"}
 	Register(&Subsystem{
 		Name: "locks",
 		Rule: "a case = fresh BadgerStore, 1-2 finalized funding transactions, 3-7 spenders with overlapping UTXO/deposit/mint inputs and overlapping output keys, then 8-30 (thorough 10-60) admission / finalization-path / raw lock / WriteTransaction / WriteSnapshot calls; non-trivial = the call met a slot or key held by another transaction, or did not return ok",
 		Gen:  genLocks,
 		Exec: execLocks,
 		Corpus: [][]string{
+			voutCorpus,
 			{ // takeover of a pending holder prunes its body; a finalized holder is not displaced
 				"reset", "exceptions",
 				"deftx 1 1 0 0 0 2 1 1 1 2", "writetx 1", "snapshot 1 1 1",
